@@ -284,7 +284,72 @@ replace %[4]s => %[1]s
 			c.NFuncs++
 		}
 	}
+	computeTypeRenames(c)
 	return c, nil
+}
+
+// typeRenames: an unexported type of the pinned tree that is gone, and the one new type of the same
+// package with the same fields that took its place (a rename). Key "pkg\told" -> new name. Set by
+// the latest load; the rules name types by their pinned names and resolve through curTypeName.
+var typeRenames = map[string]string{}
+
+func computeTypeRenames(c *Ctx) {
+	typeRenames = map[string]string{}
+	for key := range baselineTypes {
+		pkg, name, ok := strings.Cut(key, "\t")
+		if !ok || strings.HasPrefix(name, "var:") || name == "" || ast.IsExported(name) {
+			continue
+		}
+		p := c.Pkgs[pkg]
+		if p == nil || p.Types.Scope().Lookup(name) != nil {
+			continue
+		}
+		// the fields the old type had are not recorded; take the new struct type of the package whose
+		// methods cover the methods the rules and the baseline know for the old one
+		want := map[string]bool{}
+		for fk := range baselineFuncs {
+			f := strings.Split(fk, "\t")
+			if len(f) == 3 && f[0] == pkg && f[1] == name {
+				want[f[2]] = true
+			}
+		}
+		var cands []string
+		sc := p.Types.Scope()
+		for _, n := range sc.Names() {
+			tn, ok := sc.Lookup(n).(*types.TypeName)
+			if !ok || baselineTypes[pkg+"\t"+n] || tn.IsAlias() {
+				continue
+			}
+			named, ok := tn.Type().(*types.Named)
+			if !ok {
+				continue
+			}
+			have := map[string]bool{}
+			for i := 0; i < named.NumMethods(); i++ {
+				have[named.Method(i).Name()] = true
+			}
+			all := true
+			for m := range want {
+				if !have[m] {
+					all = false
+				}
+			}
+			if all && (len(want) > 0 || named.NumMethods() == 0) {
+				cands = append(cands, n)
+			}
+		}
+		if len(cands) == 1 {
+			typeRenames[key] = cands[0]
+		}
+	}
+}
+
+// curTypeName: the name the pinned type pkg.name has in the loaded tree.
+func curTypeName(pkg, name string) string {
+	if n, ok := typeRenames[pkg+"\t"+name]; ok {
+		return n
+	}
+	return name
 }
 
 // ---- anchor resolution -----------------------------------------------------
@@ -403,7 +468,7 @@ func (c *Ctx) funcExact(pkg, recv, name string) (*ssa.Function, error) {
 		}
 		return fn, nil
 	}
-	obj := sp.Pkg.Scope().Lookup(recv)
+	obj := sp.Pkg.Scope().Lookup(curTypeName(pkg, recv))
 	tn, ok := obj.(*types.TypeName)
 	if !ok {
 		return nil, fmt.Errorf("anchor: type %s.%s not found", pkg, recv)
